@@ -653,3 +653,63 @@ func Replay(t *testing.T, property string, rs map[string]Replayer) {
 	}
 	t.Logf("replay %s: passes", p)
 }
+
+// ---------------------------------------------------------------- independent cases side by side
+
+// Parallel is a check of its own for code whose objects are meant to be independent of each
+// other: it draws batches of cases with gen (inside rapid, so a run is a function of the seed),
+// makes sure each passes alone, then runs the same cases on several goroutines at once. A case
+// that passes alone and fails next to the others shows state shared between independent objects
+// (a package-level buffer, pool or cache). The replay file holds that case (alone it passes: the
+// failure needs company, which the error text says).
+func Parallel[C any](t *testing.T, property, check string, quickBatches, thoroughBatches, batch int, gen func(*rapid.T) C, run func(C) error) {
+	t.Helper()
+	rec := New(property, check, fmt.Sprintf("batches of %d rapid-generated cases of this property's main check, each first run alone, then 24 runs of each spread over 3 x GOMAXPROCS goroutines at once; "+
+		"oracle: a case that passes alone passes next to the others; non-trivial = every case of a batch that ran concurrently", batch))
+	Rapid(t, check, quickBatches, thoroughBatches, func(t *rapid.T) {
+		cases := rapid.SliceOfN(rapid.Custom(gen), batch, batch).Draw(t, "cases")
+		for _, c := range cases {
+			if err := Try(func() error { return run(c) }); err != nil {
+				t.Skip("a case fails alone: the main check's business")
+			}
+		}
+		// more goroutines than processors, so that goroutines are preempted in the middle of a call
+		// and another one continues on the same processor (per-processor caches of sync.Pool)
+		workers := 3 * runtime.GOMAXPROCS(0)
+		if workers < 8 {
+			workers = 8
+		}
+		total := 24 * len(cases) // runs in all, spread over the workers
+		per := (total + workers - 1) / workers
+		var wg sync.WaitGroup
+		var mu sync.Mutex
+		var firstErr error
+		var firstCase C
+		for w := 0; w < workers; w++ {
+			wg.Add(1)
+			go func(w int) {
+				defer wg.Done()
+				for i := 0; i < per; i++ {
+					c := cases[(w*per+i)%len(cases)]
+					if err := Try(func() error { return run(c) }); err != nil {
+						mu.Lock()
+						if firstErr == nil {
+							firstErr, firstCase = err, c
+						}
+						mu.Unlock()
+						return
+					}
+				}
+			}(w)
+		}
+		wg.Wait()
+		for _, c := range cases {
+			rec.Case(true, Hash(c), nil, func() any { return c })
+		}
+		if firstErr != nil {
+			err := fmt.Errorf("passes alone, fails when independent cases run on other goroutines at the same time (shared state between independent objects): %v", firstErr)
+			p := Fail(property, check, firstCase, err)
+			t.Fatalf("%v (replay %s)", err, p)
+		}
+	})
+}
